@@ -4,5 +4,5 @@ c=collections.Counter(); ex={}
 for l in open('/verif/scratch/%s-fails.jsonl'%prop):
     d=json.loads(l); f=d['f']
     k=tuple(f['cls'] if x=='cls' else f.get(x) if x in('got','exp') else f['fields'].get(x) for x in keys)
-    c[k]+=1; ex.setdefault(k,(d['case'],f['got'],f['exp'],f['fields'].get('formula')))
+    c[k]+=1; ex.setdefault(k,(d['case'],f['got'],f['exp'],f['fields'].get('formula') or f['fields'].get('text')))
 for k,n in sorted(c.items(),key=lambda kv:str(kv[0])): print(n,k,ex[k])
